@@ -58,6 +58,10 @@ func main() {
 			fmt.Println(err)
 			os.Exit(1)
 		}
+		if err := writeBaselineClosures(w.Pkgs, filepath.Join(filepath.Dir(*wb), "baseline_closures.txt")); err != nil {
+			fmt.Println(err)
+			os.Exit(1)
+		}
 		if err := writeBaselineGlobals(w, filepath.Join(filepath.Dir(*wb), "baseline_globals.txt")); err != nil {
 			fmt.Println(err)
 			os.Exit(1)
